@@ -282,22 +282,25 @@ def AnyDet.detect (minP : K) : AnyDet K → ℕ → DetOut K
   | .det d, n => d.detect minP n
   | .bs L r, n => bsDetect L r n
 
-/-- the same as a one-mode distribution over states `[k]` -/
-def AnyDet.kernel (minP : K) (d : AnyDet K) (n : ℕ) : Dist (List ℕ) K :=
-  ((d.detect minP n).toDist).map fun e => ([e.1], e.2)
+/-- the same as a one-mode distribution (`BSDistribution(d)` when `detect` returned a state) -/
+def AnyDet.kernel (minP : K) (d : AnyDet K) (n : ℕ) : Dist ℕ K :=
+  (d.detect minP n).toDist
 
-/-! ### `BSDistribution.list_tensor_product` at `prob_threshold = 0` -/
+/-! ### `BSDistribution.list_tensor_product` at `prob_threshold = 0`, on one-mode factors -/
 
-/-- `_inner_tensor_product` -/
-def innerTensor : List (Dist (List ℕ) K) → List ℕ → K → Dist (List ℕ) K → Dist (List ℕ) K
+/-- `_inner_tensor_product` (`current_state * bs` appends the one-mode state) -/
+def innerTensor : List (Dist ℕ K) → List ℕ → K → Dist (List ℕ) K → Dist (List ℕ) K
   | [], cur, p, res => bump res cur p
   | d :: rest, cur, p, res =>
-    d.foldl (fun acc e => if p * e.2 < 0 then acc else innerTensor rest (cur ++ e.1) (p * e.2) acc) res
+    d.foldl (fun acc e =>
+      if p * e.2 < 0 then acc else innerTensor rest (cur ++ [e.1]) (p * e.2) acc) res
 
-def listTensor (ds : List (Dist (List ℕ) K)) : Dist (List ℕ) K :=
+/-- no factor ⇒ empty; one factor ⇒ that factor itself (untrimmed); an empty factor ⇒ empty;
+otherwise factors trimmed to `prob > 0` and multiplied out -/
+def listTensor (ds : List (Dist ℕ K)) : Dist (List ℕ) K :=
   match ds with
   | [] => []
-  | [d] => d
+  | [d] => d.map fun e => ([e.1], e.2)
   | _ =>
     if ds.any (·.isEmpty) then []
     else innerTensor (ds.map fun d => d.filter fun e => 0 < e.2) [] 1 []
@@ -332,18 +335,21 @@ def simGeneral (minP : K) (minPhotons : Option ℕ) (ds : List (AnyDet K))
     (dist : Dist (List ℕ) K) : Acc K :=
   dist.foldl (fun a e => simState minP minPhotons e.2 (stateDist minP ds e.1) a) ([], 1)
 
-/-- `simulate_detectors(dist, detectors, min_photons)` after the length assertion:
-`(result, phys_perf)` -/
-def simulate (minP : K) (dist : Dist (List ℕ) K) (ds : List (AnyDet K))
+/-- `(result before normalize(), phys_perf)` of `simulate_detectors` -/
+def simulateRaw (minP : K) (dist : Dist (List ℕ) K) (ds : List (AnyDet K))
     (minPhotons : Option ℕ) : Acc K :=
   let ty := detectionType ds
   if dist.isEmpty ∨ ty = .PNR then (dist, 1)
-  else if ty = .Threshold then
-    let a := simThreshold minPhotons dist
-    (normalize a.1, a.2)
-  else
-    let a := simGeneral minP minPhotons ds dist
-    (normalize a.1, a.2)
+  else if ty = .Threshold then simThreshold minPhotons dist
+  else simGeneral minP minPhotons ds dist
+
+/-- `simulate_detectors(dist, detectors, min_photons)` after the length assertion:
+`(result, phys_perf)`; the all-PNR branch returns its input untouched (no filter, no
+normalisation), the other two normalise -/
+def simulate (minP : K) (dist : Dist (List ℕ) K) (ds : List (AnyDet K))
+    (minPhotons : Option ℕ) : Acc K :=
+  let a := simulateRaw minP dist ds minPhotons
+  if dist.isEmpty ∨ detectionType ds = .PNR then a else (normalize a.1, a.2)
 
 /-- with `assert len(detectors) == dist.m` (`m` is `None` on a never-filled distribution) -/
 def simulateChecked (minP : K) (m : Option ℕ) (dist : Dist (List ℕ) K) (ds : List (AnyDet K))
